@@ -74,7 +74,29 @@ fn mat_for(abc: Abc, tier: Tier) -> BoxedStrategy<MatSpec> {
                     }
                     MatSpec { rows, bg, regime: "finite".into() }
                 });
-            prop_oneof![1 => lib, 1 => fin]
+            // every cell a multiple of one grid step q (dyadic or decimal): the rounding error of the integer
+            // matrix is large at granularities q does not divide and exactly 0 at the finer ones
+            let grid = (
+                prop_oneof![Just(0.5f32), Just(0.25f32), Just(0.125f32), Just(0.0625f32), Just(0.03125f32), Just(0.2f32), Just(0.05f32), Just(1.0f32)],
+                proptest::collection::vec(proptest::collection::vec(-48i32..=48, k), m),
+                bg_strategy(k, false, false),
+                prop_oneof![3 => Just(0u8), 1 => Just(1u8), 1 => Just(2u8)],
+            )
+                .prop_map(move |(q, rows, bg, wild)| {
+                    let mut rows: Vec<Vec<Fl>> = rows.into_iter().map(|r| r.into_iter().map(|n| Fl(n as f32 * q)).collect()).collect();
+                    for r in rows.iter_mut() {
+                        match wild {
+                            0 => r[k - 1] = Fl(f32::NEG_INFINITY),
+                            1 => {
+                                let mn = r[..k - 1].iter().map(|x| x.0).fold(f32::INFINITY, f32::min);
+                                r[k - 1] = Fl(mn);
+                            }
+                            _ => {}
+                        }
+                    }
+                    MatSpec { rows, bg, regime: "grid".into() }
+                });
+            prop_oneof![2 => lib, 2 => fin, 1 => grid]
         })
         .boxed()
 }
@@ -136,7 +158,7 @@ fn classify(case: &Case, k: usize, bgf: &[f32], info: &mut CaseInfo) {
     let u = bgf[0];
     info.class_if(bgf[..k - 1].iter().any(|&x| (x - u).abs() > 1e-6), "non-uniform-background");
     info.class_if(case.mat.rows.iter().any(|r| r[k - 1].0.is_finite()), "finite-wildcard-column");
-    info.class(if case.mat.regime == "library" { "mat:library" } else { "mat:finite" });
+    info.class(match case.mat.regime.as_str() { "library" => "mat:library", "grid" => "mat:grid-valued", _ => "mat:finite" });
 }
 
 // ---------------------------------------------------------------------------
@@ -252,7 +274,7 @@ impl Sub for PvalueRanges {
         "pvalue-ranges"
     }
     fn rule(&self) -> &'static str {
-        "DNA width 2..8 (quick) / ..12 (thorough), protein 2..3; library-made and arbitrary finite matrices (wildcard column -inf, = row minimum, or arbitrary finite) x uniform / non-uniform backgrounds; 6..12 scores per matrix (below min, min, exactly attainable, just above attainable, between, max, above max, arbitrary); approximate_pvalue driven for at most 8 refinement steps; every step: 0 <= pmin <= pmax <= total mass, P(S>=s+(M+1)g) <= pmin, pmax <= P(S>=s-(M+2)g) against exact meet-in-the-middle enumeration over the real symbols; pvalue() checked when the bounded run converged; non-trivial = M >= 3, a query strictly inside (min, max) and >= 2 refinement steps"
+        "DNA width 2..8 (quick) / ..12 (thorough), protein 2..3; library-made, arbitrary finite and grid-valued (every cell a multiple of 1/2 .. 1/32, 0.2, 0.05 or 1) matrices (wildcard column -inf, = row minimum, or arbitrary finite) x uniform / non-uniform backgrounds; 6..12 scores per matrix (below min, min, exactly attainable, just above attainable, between, max, above max, arbitrary); approximate_pvalue driven for at most 8 refinement steps; every step: 0 <= pmin <= pmax <= total mass, P(S>=s+(M+1)g) <= pmin, pmax <= P(S>=s-(M+2)g) against exact meet-in-the-middle enumeration over the real symbols; pvalue() checked when the bounded run converged; non-trivial = M >= 3, a query strictly inside (min, max) and >= 2 refinement steps"
     }
     fn cases(&self, tier: Tier) -> u64 {
         tier.pick(20_000, 150_000)
